@@ -10,8 +10,8 @@ TagSeq == SetToSeq(UserTags)
 \* the audit appended to every enumerated history: everything the property lets a user observe,
 \* before and after a close/reopen, with the values the specification expects in this state
 Audit(m, c) ==
-    <<Ev("NewRef", [a |-> 0], [ret |-> "any"]), Ev("NewRef", [a |-> 0], [ret |-> "any"])>>
-    \o [i \in 1..Len(TagSeq) |-> Ev("TagNewRef", [tag |-> TagSeq[i]], [ret |-> "any"])]
+    <<Ev("NewRef", [a |-> 0], [ret |-> "any", fresh |-> TRUE]), Ev("NewRef", [a |-> 0], [ret |-> "any", fresh |-> TRUE])>>
+    \o [i \in 1..Len(TagSeq) |-> Ev("TagNewRef", [tag |-> TagSeq[i]], [ret |-> "any", fresh |-> TRUE])]
     \o <<Ev("Number", [tag |-> Wild], [ret |-> Count(m, Wild)])>>
     \o [i \in 1..Len(TagSeq) |-> Ev("Number", [tag |-> TagSeq[i]], [ret |-> Count(m, TagSeq[i])])]
     \o <<Ev("Walk", [tag |-> Wild, ref |-> Wild, dir |-> 0], [list |-> Listing(m, Wild, Wild)]),
@@ -19,8 +19,8 @@ Audit(m, c) ==
     \o [i \in 1..Len(TagSeq) |-> Ev("Walk", [tag |-> TagSeq[i], ref |-> Wild, dir |-> i % 2], [list |-> Listing(m, TagSeq[i], Wild)])]
     \o <<Ev("Reopen", [cache |-> c], [ret |-> OK, list |-> Listing(m, Wild, Wild)]),
          Ev("Number", [tag |-> Wild], [ret |-> Count(m, Wild)]),
-         Ev("NewRef", [a |-> 0], [ret |-> "any"])>>
-    \o [i \in 1..Len(TagSeq) |-> Ev("TagNewRef", [tag |-> TagSeq[i]], [ret |-> "any"])]
+         Ev("NewRef", [a |-> 0], [ret |-> "any", fresh |-> TRUE])>>
+    \o [i \in 1..Len(TagSeq) |-> Ev("TagNewRef", [tag |-> TagSeq[i]], [ret |-> "any", fresh |-> TRUE])]
 
 EmitAudited == (st' = "open") =>
     CSVWrite("%1$s", <<ToJson([spec |-> "HDir", steps |-> hist' \o Audit(mem', cache')])>>, IOEnv.GEN_OUT)
